@@ -165,9 +165,20 @@ func genTagFilter(t *rapid.T, p *gen.Prof, label string) string {
 func genCase(t *rapid.T) *filterCase {
 	p := gen.Profile(t, profOpts)
 	normalizeLabels(p)
+	if len(p.Functions) > 0 && rapid.IntRange(0, 3).Draw(t, "oddnames") == 0 {
+		// names that interact with how an expression is typed or passed: one that starts like the "-cum" switch
+		// of interactive commands, and two that differ only by a word before a blank
+		p.Functions[0].Name = rapid.SampledFrom([]string{"cumsum", "cumulative_total", "operator new", "cum"}).Draw(t, "oddname0")
+		if len(p.Functions) > 1 {
+			p.Functions[len(p.Functions)-1].Name = rapid.SampledFrom([]string{"newobject", "new", "sum", "operator new[]"}).Draw(t, "oddname1")
+		}
+	}
 	var pool []string
 	for _, f := range p.Functions {
 		pool = append(pool, f.Name, f.Filename)
+		if i := strings.LastIndex(f.Name, " "); i >= 0 {
+			pool = append(pool, f.Name[i:]) // " new": the blank is part of the expression
+		}
 	}
 	for _, m := range p.Mappings {
 		pool = append(pool, m.File)
@@ -927,6 +938,32 @@ func runProtoInteractive(p *profile.Profile, f Filt) (*profile.Profile, *pp.Res,
 	var lines []string
 	for _, k := range []string{"focus", "ignore", "hide", "show", "show_from", "tagfocus", "tagignore", "tagshow", "taghide"} {
 		lines = append(lines, k+"="+fl[k])
+	}
+	word := regexp.MustCompile(`^[A-Za-z_][A-Za-z0-9_.|]*$`)
+	if (f.Focus == "" || word.MatchString(f.Focus)) && (f.Ignore == "" || word.MatchString(f.Ignore)) && f.Focus+f.Ignore != "" {
+		// the same two filters as arguments of the command: "proto focus -ignore >out"
+		lines = nil
+		for _, k := range []string{"hide", "show", "show_from", "tagfocus", "tagignore", "tagshow", "taghide"} {
+			lines = append(lines, k+"="+fl[k])
+		}
+		cmd := "proto"
+		if f.Focus != "" {
+			cmd += " " + f.Focus
+		}
+		if f.Ignore != "" {
+			cmd += " -" + f.Ignore
+		}
+		lines = append(lines, "relative_percentages="+fl["relative_percentages"], cmd+" >out")
+		res := pp.Run(pp.Req{Args: []string{"src"}, Sources: map[string]*pp.Source{"src": {Prof: p}}, Lines: lines})
+		if res.Panic != "" {
+			return nil, res, fmt.Errorf("pprof panicked: %s", res.Panic)
+		}
+		if data := res.Out("out"); data != "" {
+			out, err := profile.ParseData([]byte(data))
+			return out, res, err
+		}
+		_, errs := res.UI.Snapshot()
+		return nil, res, fmt.Errorf("interactive '%s >out' wrote nothing: %.300q", cmd, errs)
 	}
 	lines = append(lines, "relative_percentages="+fl["relative_percentages"], "proto >out")
 	res := pp.Run(pp.Req{Args: []string{"src"}, Sources: map[string]*pp.Source{"src": {Prof: p}}, Lines: lines})
